@@ -841,6 +841,9 @@ def _rebuild(ctx, cls):
             raise AnalysisError(f"{cs.loc(s)}: sort key `{ast.unparse(key) if key is not None else 'natural order'}` not recognised")
         p = lam.args.args[0].arg
         b = lam.body
+        if isinstance(b, ast.Tuple) and len(b.elts) >= 3 and ast.unparse(b.elts[0]) == f"{p}.machine_id":
+            # one sort of all operations, machine by machine: within a machine the order is that of the remaining components
+            b = ast.Tuple(elts=list(b.elts[1:]), ctx=ast.Load())
         if isinstance(b, ast.Tuple) and len(b.elts) >= 2:
             e0, e1 = ast.unparse(b.elts[0]), ast.unparse(b.elts[1])
             if e0 == f"{p}.start_time" and (e1 == f"{p}.end_time" or e1.endswith(".duration")):
@@ -861,7 +864,7 @@ def _rebuild(ctx, cls):
             chk.violation("R03.d", cs, s, f"machine sequences are ordered by `{ast.unparse(b)}`, not by (start time, end time)", loc=cs.loc(s))
     # the schedule must be built for every machine list and validated (Schedule(...))
     built = [n for n in own_nodes(cs.node) if isinstance(n, ast.Call) and ast.unparse(n.func) == "Schedule"]
-    if not built or not any(k.arg == "schedule" for k in built[0].keywords):
+    if not built or not (any(k.arg == "schedule" for k in built[0].keywords) or len(built[0].args) >= 2):
         chk.violation("R03.d", cs, None, "the rebuilt sequences are not handed to Schedule(schedule=...) (validation skipped)")
     # each operation placed on its own machine with its solved start
     n_sop = 0
